@@ -129,6 +129,8 @@ def run(chk, repo, tier):
     from rules import C01b
     C01b.run_a7(chk, A7, repo)
     C01b.run_a8(chk, A8, repo)
+    A9 = chk.rule('A9', 'reader: a branch guarded by the existence of a PK symbol uses that symbol (Sn, ALAGn, Fn, SC)', floor=4)
+    C01b.run_a9(chk, A9, repo)
     from rules.C04 import run_a5
     run_a5(chk, A5, ['abbreviated_record.lark', 'code_record.lark', 'data_record.lark', 'option_record.lark',
                      'simulation_record.lark'])
